@@ -246,10 +246,15 @@ func (in Inst) String() string {
 type Program struct {
 	Insts  []Inst         `json:"insts"`
 	Labels map[string]int `json:"labels"`
+	// Misaligned admits loads and stores at addresses that are not a multiple
+	// of their size (byte-wise little-endian semantics, as the machines
+	// implement them). Off by default: the whole-machine properties are checked
+	// on naturally aligned programs; the unaligned sub-profile of C12 sets it.
+	Misaligned bool `json:"misaligned,omitempty"`
 }
 
 func (p *Program) Clone() *Program {
-	q := &Program{Insts: append([]Inst(nil), p.Insts...), Labels: make(map[string]int, len(p.Labels))}
+	q := &Program{Insts: append([]Inst(nil), p.Insts...), Labels: make(map[string]int, len(p.Labels)), Misaligned: p.Misaligned}
 	for k, v := range p.Labels {
 		q.Labels[k] = v
 	}
